@@ -331,6 +331,55 @@ Theorem C11_quantis_own_limits : forall vpot_of expf e0 e1 b0 b1 old0 old1 strea
 Proof. exact quantis_own_limits. Qed.
 Print Assumptions C11_quantis_own_limits.
 
+(* Validity of the new [0-] path of an accepted QuanTIS swap in ITS OWN ensemble (ordered [0-] interfaces
+   lambda_-1 = e_i0 e0 <= e_i2 e0 = lambda_0, the left one finite with lambda_minus_one or -inf; honest first
+   frames): the path is a :: mid ++ [b] with a non-empty interior, a strictly outside [lambda_-1, lambda_0],
+   every interior frame inside, b strictly right of lambda_0, and — unless "L" is in the start condition of the
+   [0-] ensemble itself (e_scL e0 = "L" in ens_set0["start_cond"]; the start condition of [0+] plays no role) —
+   a lies to the RIGHT of lambda_0: a new [0-] path that left through lambda_-1 is never accepted by an ensemble
+   that only admits paths starting on the right (the move answers "0-L", as shoot and retis_swap_zero do). *)
+Theorem C11_quantis_valid_minus : forall vpot_of expf e0 e1 b0 b1 old0 old1 streams draws p0 p1 st calls nd,
+  quantis_swap_zero vpot_of expf e0 e1 b0 b1 old0 old1 streams draws = Out true p0 p1 st calls nd ->
+  first_frame_honest streams calls ->
+  e_i0 e0 <= e_i1 e0 <= e_i2 e0 ->
+  exists a mid b, orders (sp_path p0) = a :: mid ++ [b] /\ mid <> [] /\
+    (a < e_i0 e0 \/ e_i2 e0 < a) /\ (e_scL e0 = false -> e_i2 e0 < a) /\
+    (forall o, In o mid -> e_i0 e0 <= o <= e_i2 e0) /\ e_i2 e0 < b.
+Proof. exact quantis_swap_valid_minus. Qed.
+Print Assumptions C11_quantis_valid_minus.
+
+(* ... in particular: accepted QuanTIS swap => the new [0-] path starts on a side its own ensemble's start
+   condition allows, for the start conditions "R" (e_scL e0 = false: starts right of lambda_0) and ["L", "R"]
+   (either side; it always starts strictly outside [lambda_-1, lambda_0]) *)
+Theorem C11_quantis_start_cond : forall vpot_of expf e0 e1 b0 b1 old0 old1 streams draws p0 p1 st calls nd,
+  quantis_swap_zero vpot_of expf e0 e1 b0 b1 old0 old1 streams draws = Out true p0 p1 st calls nd ->
+  first_frame_honest streams calls ->
+  e_i0 e0 <= e_i1 e0 <= e_i2 e0 ->
+  exists a rest, orders (sp_path p0) = a :: rest /\
+    (a < e_i0 e0 /\ e_scL e0 = true \/ e_i2 e0 < a).
+Proof. exact quantis_start_cond. Qed.
+Print Assumptions C11_quantis_start_cond.
+
+(* The guard of both moves only tests for a FORBIDDEN "L".  With a start condition of [0-] that is "L" ALONE
+   (finite lambda_-1; infretis itself only creates "R" and ["L", "R"]) both moves accept a new [0-] path that
+   starts on the RIGHT of lambda_0, i.e. on a side that start condition does not allow (shoot rejects such a
+   path BWI).  Witness (SwapP.StartL): interfaces (0, 1, 2) / (2, 2, 5), valid old paths -1 1 3 / 0 3 1,
+   backward run 0 3: retis_swap_zero and quantis_swap_zero are accepted with the new [0-] path 3 0 3. *)
+Theorem C11_start_cond_L_only_refuted :
+  e_scL StartL.e0 = true /\ e_scR StartL.e0 = false /\ e_i0 StartL.e0 <= e_i1 StartL.e0 <= e_i2 StartL.e0 /\
+  minus_valid StartL.e0 (sp_path StartL.old0) /\ plus_valid StartL.e1 (sp_path StartL.old1) /\
+  (exists sp0 sp1 calls,
+     retis_swap_zero Limits.dumpf StartL.e0 StartL.e1 StartL.old0 StartL.old1 StartL.streams [] = Out true sp0 sp1 ACC calls 0 /\
+     first_frame_honest StartL.streams calls /\
+     orders (sp_path sp0) = [3; 0; 3] /\ e_i2 StartL.e0 < 3) /\
+  (exists p0 p1 calls,
+     quantis_swap_zero Limits.vpot (fun _ => 1%Q) StartL.e0 StartL.e1 1 1 StartL.old0 StartL.old1 StartL.qstreams [(1 # 2)%Q]
+       = Out true p0 p1 ACC calls 1 /\
+     first_frame_honest StartL.qstreams calls /\
+     orders (sp_path p0) = [3; 0; 3] /\ e_i2 StartL.e0 < 3).
+Proof. exact start_cond_L_only_refuted. Qed.
+Print Assumptions C11_start_cond_L_only_refuted.
+
 (* The code BEFORE the repair (SwapM.quantis_swap_zero_before_fix = quantis_swap_zero_g false) read the
    [0-] limit for both paths ("maxlen1 = ens_set0["tis_set"]["maxlength"]").  With maxlength([0-]) >
    maxlength([0+]) it accepted a new [0+] path that is not below the [0+] limit (witness: limits 8 / 4,
@@ -576,6 +625,35 @@ Proof.
   split; [reflexivity|]. split.
   - eexists _, _, _. split; [vm_compute; reflexivity|]. split; reflexivity.
   - eexists _, _, _. vm_compute; reflexivity.
+Qed.
+
+(* QuanTIS with a finite left interface lambda_-1 = 0 of [0-] (interfaces (0, 1, 2)): the backward run 1 0 -1
+   from old[0+][0] leaves through lambda_-1, the complete new [0-] path would be -1 0 1 3.  With start
+   condition "R" of [0-] the move is rejected "0-L" after three engine calls and the path carries that status;
+   with ["L", "R"] the same input is accepted with exactly that path; and a backward run 1 0 4 that ends on the
+   right is accepted under "R" with the new [0-] path 4 0 1 3 (hypotheses of C11_quantis_valid_minus hold) *)
+Definition ex_e0_lm1 (scL scR : bool) : ens := mkEns 0 1 2 scL scR Msh 8 None false.
+Definition ex_qstreams_left : list (list frame) :=
+  [ [mkF 1 1000 false 0; mkF 3 1001 false 0]; [mkF 0 2000 false 0; mkF 3 2001 false 0];
+    [mkF 1 3000 true 0; mkF 0 3001 true 0; mkF (-1) 3002 true 0]; [mkF 3 4000 false 0; mkF 4 4001 false 0; mkF 1 4002 false 0] ].
+Example C11_example_quantis_start_cond :
+  (exists p0 p1 calls, quantis_swap_zero ex_vpot (fun _ => 1%Q) (ex_e0_lm1 false true) ex_e1 1 2 ex_old0 ex_old1 ex_qstreams_left [(1 # 2)%Q]
+                       = Out false p0 p1 ZML calls 1 /\
+                       orders (sp_path p0) = [-1; 0; 1; 3] /\ sp_status p0 = ZML /\ length calls = 3%nat) /\
+  (exists p0 p1 calls, quantis_swap_zero ex_vpot (fun _ => 1%Q) (ex_e0_lm1 true true) ex_e1 1 2 ex_old0 ex_old1 ex_qstreams_left [(1 # 2)%Q]
+                       = Out true p0 p1 ACC calls 1 /\
+                       orders (sp_path p0) = [-1; 0; 1; 3] /\ orders (sp_path p1) = [0; 3; 4; 1]) /\
+  (exists p0 p1 calls, quantis_swap_zero ex_vpot (fun _ => 1%Q) (ex_e0_lm1 false true) ex_e1 1 2 ex_old0 ex_old1 ex_qstreams [(1 # 2)%Q]
+                       = Out true p0 p1 ACC calls 1 /\
+                       orders (sp_path p0) = [4; 0; 1; 3] /\ first_frame_honest ex_qstreams calls /\
+                       e_i0 (ex_e0_lm1 false true) <= e_i1 (ex_e0_lm1 false true) <= e_i2 (ex_e0_lm1 false true)).
+Proof.
+  split; [|split].
+  - eexists _, _, _. split; [vm_compute; reflexivity|]. split; [reflexivity|]. split; reflexivity.
+  - eexists _, _, _. split; [vm_compute; reflexivity|]. split; reflexivity.
+  - eexists _, _, _. split; [vm_compute; reflexivity|]. split; [reflexivity|]. split; [|vm_compute; split; discriminate].
+    intros [|[|[|[|k]]]] c s g Hc Hs Hg; cbn in Hc, Hs; try (destruct k; discriminate);
+      injection Hc as <-; injection Hs as <-; injection Hg as <-; reflexivity.
 Qed.
 
 (* a deterministic reversible dynamics (SwapP.Clock: motion along one fixed trajectory, reversal
